@@ -156,6 +156,9 @@ type ctx struct {
 	j      uint64 // running execution counter: rotates sources, buffer plans and early-close points
 	perKey map[string]int
 	sigs   map[uint64]bool
+	// example: one execution of the case written out for the evidence file (the first one whose
+	// header the Reader accepted)
+	example map[string]any
 }
 
 // sig records one distinct (class, mode, input) per case only once, so that the framework's cap of
@@ -234,6 +237,10 @@ func (c *ctx) exec(what string, in []byte, crc bool, v verdict, src lzwork.Sourc
 	c.o.Count("source_"+src.String(), 1)
 	c.o.Count("bufplan_"+rp.String(), 1)
 	c.sig(v.class, m, in)
+	if c.example == nil && len(in) > 8 {
+		c.example = det()
+		c.example["stream_hex"] = lzwork.Hex(in, 64)
+	}
 	if res.BadCount != "" {
 		violate("bad-read-count", "%s", res.BadCount)
 		return
@@ -586,7 +593,8 @@ func (c *ctx) regress() {
 		c.all("all-ff-64", bytes.Repeat([]byte{0xff}, 64), crc)
 	}
 	c.o.Sample = map[string]any{"kind": "regress", "inputs": []string{"negative sizes (-1, -2, -59..-61, -4096, -2^31) on 300-, 100- and 0-byte inputs",
-		"final match of length 3, 4, 10, 59, 60 with the size lowered by 1..L-1 (CRC recomputed)", "size 0/1/n-1/n+1/n+59..61/2^20/2^31-1", "streams of 0..8 bytes", "64 zero / 0xff bytes"},
+		"final match of length 3, 4, 10, 59, 60 with the size lowered by 1..L-1 (CRC recomputed)", "size 0/1/n-1/n+1/n+59..61/2^20/2^31-1", "streams of 0..8 bytes", "64 zero / 0xff bytes",
+		"symbol-level streams: one match of length 3/60 into the space pre-fill at positions 0..1987 as first symbol and after 1..700 literals"},
 		"combinations": "5 source readers x 5 buffer plans x {b2, raw} + early Close"}
 }
 
@@ -708,6 +716,9 @@ func run(cs vrt.Case) vrt.Obs {
 		c.syms(p.Lo)
 	default:
 		panic("c08: unknown case kind " + p.Kind)
+	}
+	if m, ok := o.Sample.(map[string]any); ok && c.example != nil {
+		m["example_execution"] = c.example
 	}
 	return o
 }
